@@ -35,6 +35,17 @@ func configure(g *gen) {
 			{"enableCaching", "bool", "enableCaching", tBool},
 			{"useEncodedPath", "bool", "useEncodedPath", tBool},
 			{"counter", "int", "counter", tInt},
+			{"currentGroupPrefix", "string", "currentGroupPrefix", tStr},
+			{"currentGroupHandlers", "HandlersChain", "currentGroupHandlers", T{"opaque", "List Nat"}}, // handler identities
+			{"handlers", "HandlersChain", "handlers", T{"opaque", "List Nat"}},
+		}},
+		// route.go (opt-in: elsewhere a *Route is an opaque value of the lookup environment)
+		{Go: "Route", Lean: "Route", OptIn: true, Fields: []FieldSpec{
+			{"name", "string", "name", tStr},
+			{"path", "string", "path", tStr},
+			{"methods", "[]string", "methods", tStrList},
+			{"handler", "HandlerFunc", "handler", T{"opaque", "Option Nat"}},
+			{"handlers", "HandlersChain", "handlers", T{"opaque", "List Nat"}},
 		}},
 	}
 	g.opaque["error"] = T{"opaque", "Bool"} // true = a non-nil error
@@ -42,7 +53,11 @@ func configure(g *gen) {
 	g.opaque["http.Request"] = T{"opaque", "Option Nat"}
 	g.opaque["rux.Route"] = T{"opaque", "Option ρ"}  // *Route: nil or a route of the abstract type ρ
 	g.opaque["rux.Params"] = T{"opaque", "Option π"} // Params (a map): nil or a value of the abstract type π
+	g.opaque["rux.HandlersChain"] = T{"opaque", "List Nat"} // handlers are identities here
+	g.opaque["[]rux.HandlerFunc"] = T{"opaque", "List Nat"}
+	g.opaque["rux.HandlerFunc"] = T{"opaque", "Option Nat"}
 	g.globalExts = []Ext{
+		{Callee: "anyMethods", Value: "Rux.Facts.anyMethodsB", T: tStrList},
 		{Callee: "debugPrint", Ignore: true},
 	}
 	add := func(s FnSpec) { sp := s; g.fns = append(g.fns, &fnInfo{spec: &sp}) }
@@ -130,6 +145,20 @@ func configure(g *gen) {
 			{Callee: "$.regularRoutes[]=", Stmts: []string{"s := env.setRegular s %1 %2"}},
 			{Callee: "$.irregularRoutes[]=", Stmts: []string{"s := env.setIrregular s %1 %2"}},
 		}})
+	// router.go / middleware.go / route.go: groups, Use, the handler limit, the definition checks
+	add(FnSpec{Recv: "Router", Func: "Group", Lean: "Router.Group",
+		Types: map[string]T{"func()": {"opaque", "Router → Except Panic Router"}},
+		Exts: []Ext{
+			// the callback registers routes / opens sub-groups on the same router; a panic inside it propagates
+			{Callee: "register", Stmts: []string{"let %t ← register $", "$ := %t"}, MayPanic: true},
+			// a fresh slice holding old ++ new (that it is fresh — no aliasing — is C12_no_alias' business)
+			{Callee: "combineHandlers", Value: "(%1 ++ %2)", T: T{"opaque", "List Nat"}},
+		}})
+	add(FnSpec{Recv: "Router", Func: "Use", Lean: "Router.Use"})
+	add(FnSpec{Recv: "Route", Func: "Use", Lean: "Route.Use", UseStructs: []string{"Route"}})
+	add(FnSpec{Func: "isSupportedMethod", Lean: "isSupportedMethod"})
+	add(FnSpec{Recv: "Route", Func: "goodInfo", Lean: "Route.goodInfo", UseStructs: []string{"Route"},
+		Exts: []Ext{{Callee: "MethodsString", Value: "([] : Bytes)", T: tStr}}})
 	// response_wirter.go
 	add(FnSpec{Recv: "responseWriter", Func: "reset", Lean: "RW.reset", Exts: []Ext{
 		// w.Writer = w2: a new underlying writer, nothing has reached it yet
